@@ -376,6 +376,27 @@ Proof.
   split; [rewrite compare_symbol_zero; exact E | unfold hash_symbol; apply E].
 Qed.
 
+(* sequences (arrays, lists) of symbols of a history compare equal exactly when their names agree position by position *)
+Theorem compare_symbols_zero_iff_same_names : forall st ops (l1 l2 : list (name * Z)), tables_inverse st ->
+  (forall n k, In (n, k) l1 -> symbol_of st ops n k) -> (forall n k, In (n, k) l2 -> symbol_of st ops n k) ->
+  (compare_symbols (map snd l1) (map snd l2) = 0 <-> map fst l1 = map fst l2).
+Proof.
+  intros st ops l1. induction l1 as [|[n1 k1] l1 IH]; intros l2 INV H1 H2; destruct l2 as [|[n2 k2] l2]; simpl.
+  - tauto.
+  - split; intro H; [lia|discriminate].
+  - split; intro H; [lia|discriminate].
+  - assert (E : compare_symbol k1 k2 = 0 <-> n1 = n2).
+    { apply (compare_zero_iff_same_name st ops n1 k1 n2 k2 INV); [apply H1|apply H2]; left; reflexivity. }
+    assert (R : compare_symbols (map snd l1) (map snd l2) = 0 <-> map fst l1 = map fst l2).
+    { apply IH; auto; intros n k Hin; [apply H1|apply H2]; right; exact Hin. }
+    destruct (compare_symbol k1 k2 =? 0) eqn:C.
+    + apply Z.eqb_eq in C. split; intro H.
+      * f_equal; [apply E; exact C|apply R; exact H].
+      * injection H as _ H. apply R. exact H.
+    + apply Z.eqb_neq in C. split; intro H; [contradiction|].
+      injection H as H _. exfalso. apply C. apply E. exact H.
+Qed.
+
 (* GenSymbol returns a symbol that was not in the tables before the call *)
 Theorem gensym_fresh : forall st i p st' nm k, gen_symbol st i p = (st', OSym nm k) ->
   lookup_name nm (symtable st) = None /\ lookup_num k (revsymtable st) = None /\
